@@ -369,6 +369,33 @@ class ThreadRun:
         self.on_op = on_op
         self.open_after_close = None
         self.close_intents: list = []
+        self.unserialised_passes: list = []  # pool passes that ran without the pool lock held or while another thread was inside one
+
+    def _probe_pool_passes(self):
+        """Diagnosis only (never an oracle by itself): note whether the pool's assignment pass was ever entered without its thread lock
+        held by the entering thread, or while another thread was inside a pass. Used to tell the recorded finding 'closed by another
+        thread's *serialised* pass' from failures that come from passes racing each other."""
+        pool = self.pool
+        orig = getattr(pool, "_assign_requests_to_connections", None)
+        if orig is None:
+            return
+        inside: set = set()
+        run = self
+
+        def probed():
+            cur = run.sched.current
+            tid = cur.id if cur is not None else None
+            lock = getattr(getattr(pool, "_optional_thread_lock", None), "_lock", None)
+            held = lock is not None and getattr(lock, "_locked", False) and getattr(lock, "_owner", None) == tid
+            if tid is not None and (inside - {tid} or not held):
+                run.unserialised_passes.append((run.world.seq, tid, sorted(inside), held))
+            inside.add(tid)
+            try:
+                return orig()
+            finally:
+                inside.discard(tid)
+
+        pool._assign_requests_to_connections = probed
 
     def _gate(self, kind, pipe, info):
         s = self.sched
@@ -392,6 +419,7 @@ class ThreadRun:
                 for spec in self.warmup:  # sequential warm-up on the main thread (creates idle connections)
                     self.warm_results.append(sync_request(self.pool, spec))
                 world.sgate = self._gate
+                self._probe_pool_passes()
                 if self.on_op is not None:
                     world.on_op = self.on_op
 
